@@ -9,6 +9,7 @@ static const char *gn[] = { "none", "eventual", "suspend", "mutex", "cond" };
 typedef struct unit6 {
     int id, home_es, pool, gate, yields_before, yields_after, migrate_to; /* migrate_to: pool index or -1 */
     int is_task, yield_to_child;
+    int replace_sched; /* 0: no; 1..3: replace my stream's main scheduler (by BASIC/PRIO/RANDWS) */
     volatile int started, at_gate, released, done;
     ABT_thread self; /* valid while the unit is alive */
     ABT_eventual_memory evm WL_ALIGNED_MEMORY;
@@ -30,7 +31,7 @@ static struct {
     volatile int releaser_done, mutex_held;
     int nmutex_units, mutex_home;
     volatile int pool_alive[WL_MAX_POOLS];
-    long released_after_join;
+    long released_after_join, scheds_replaced;
 } S;
 
 static void child_fn(void *arg)
@@ -90,6 +91,28 @@ static void unit_fn(void *arg)
     }
     if (u->gate != G_NONE)
         SIM_CHECK(u->released, "block:ran-without-release", "unit %d passed its %s gate before it was released", u->id, gn[u->gate]);
+    if (u->replace_sched && !u->is_task) {
+        /* replace the main scheduler of the stream I run on by a new one over the same pools.
+         * For a unit that passed a gate this happens after the join of its stream was issued:
+         * the new scheduler must still honour that join. */
+        ABT_xstream xs;
+        ABT_sched sc;
+        ABT_pool ps[4];
+        int n = 0;
+        ABT_bool primary = ABT_TRUE;
+        ABT_OK(ABT_xstream_self(&xs));
+        ABT_OK(ABT_xstream_is_primary(xs, &primary));
+        ABT_OK(ABT_xstream_get_main_sched(xs, &sc));
+        ABT_OK(ABT_sched_get_num_pools(sc, &n));
+        /* (not on the primary stream: ABT_finalize stops the scheduler object that is the main
+         * scheduler when it is called, so replacing it afterwards is the program's error) */
+        if (primary == ABT_FALSE && n >= 1 && n <= 4) {
+            static const ABT_sched_predef kinds[] = { ABT_SCHED_BASIC, ABT_SCHED_PRIO, ABT_SCHED_RANDWS };
+            ABT_OK(ABT_sched_get_pools(sc, n, 0, ps));
+            ABT_OK(ABT_xstream_set_main_sched_basic(xs, kinds[u->replace_sched - 1], n, ps));
+            S.scheds_replaced++;
+        }
+    }
     for (int i = 0; i < u->yields_after; i++)
         if (!u->is_task)
             ABT_OK(ABT_thread_yield());
@@ -238,6 +261,7 @@ static void run_c06(void)
         u->gate = u->is_task ? G_NONE : (int)plan_n(G_N);
         u->yields_before = (int)plan_n(3);
         u->yields_after = (int)plan_n(3);
+        u->replace_sched = !u->is_task && plan_n(6) == 0 ? 1 + (int)plan_n(3) : 0;
         u->migrate_to = -1;
         if (!u->is_task && plan_n(4) == 0) {
             /* migrate to a pool of the primary stream (joined last, by ABT_finalize) */
@@ -317,6 +341,115 @@ static void run_c06(void)
                   i, S.U[i].home_es, S.U[i].started, S.U[i].at_gate, S.U[i].released);
     sim_thread_join(rel);
     sim_count("c06.gates_released_after_join_issued", (uint64_t)S.released_after_join);
+    sim_count("c06.main_scheds_replaced_by_units", (uint64_t)S.scheds_replaced);
     sim_ledger_check_empty("after ABT_finalize");
 }
 SIM_WORKLOAD("C06", "join-waits", run_c06, 10)
+
+/* ---- scenario "pool-reuse": one user-managed (not automatic) pool serves several execution
+ * streams one after the other.  Each stream is joined while some of its units are still
+ * blocked; an external thread releases them only after the join has been issued.  The join
+ * must wait for them every time, not only for the pool's first stream. ---- */
+#define PR_MAXU 5
+static struct {
+    ABT_pool P;
+    ABT_eventual ev[PR_MAXU];
+    volatile int done[PR_MAXU], blocks[PR_MAXU];
+    int n;
+    volatile int join_issued, round_over, stop;
+    long released;
+} PR;
+static void pr_unit(void *arg)
+{
+    int i = (int)(long)arg;
+    if (PR.blocks[i])
+        ABT_OK(ABT_eventual_wait(PR.ev[i], NULL));
+    else
+        ABT_OK(ABT_thread_yield());
+    PR.done[i] = 1;
+    sim_progress();
+}
+static void pr_releaser(void *arg)
+{
+    (void)arg;
+    while (!PR.stop) {
+        if (PR.join_issued && !PR.round_over) {
+            /* a few steps later, so that the joined stream finds its pool empty first */
+            for (int k = 0; k < 3 + (int)sim_rand_n(SIM_RS_CHAOS, 40); k++)
+                sim_yield();
+            for (int i = 0; i < PR.n; i++)
+                if (PR.blocks[i]) {
+                    ABT_OK(ABT_eventual_set(PR.ev[i], NULL, 0));
+                    PR.released++;
+                    sim_progress();
+                }
+            PR.round_over = 1;
+        }
+        sim_yield();
+    }
+}
+static void run_pool_reuse(void)
+{
+    memset(&PR, 0, sizeof PR);
+    wl_env_swarm();
+    ABT_OK(ABT_init(0, NULL));
+    static const ABT_pool_kind pk[] = { ABT_POOL_FIFO, ABT_POOL_FIFO_WAIT, ABT_POOL_RANDWS };
+    static const ABT_sched_predef sk[] = { ABT_SCHED_BASIC, ABT_SCHED_BASIC_WAIT, ABT_SCHED_PRIO, ABT_SCHED_RANDWS };
+    ABT_OK(ABT_pool_create_basic(pk[plan_n(3)], ABT_POOL_ACCESS_MPMC, ABT_FALSE, &PR.P));
+    int rounds = plan_range(1, 3);
+    sim_note("pool-reuse rounds=%d ", rounds);
+    int tid = sim_thread_create(pr_releaser, NULL);
+    for (int r = 0; r < rounds; r++) {
+        ABT_xstream xs;
+        ABT_thread th[PR_MAXU];
+        PR.n = plan_range(1, PR_MAXU);
+        PR.join_issued = 0;
+        PR.round_over = 0;
+        ABT_OK(ABT_xstream_create_basic(sk[plan_n(4)], 1, &PR.P, ABT_SCHED_CONFIG_NULL, &xs));
+        for (int i = 0; i < PR.n; i++) {
+            PR.done[i] = 0;
+            PR.blocks[i] = plan_n(3) != 0;
+            if (PR.blocks[i])
+                ABT_OK(ABT_eventual_create(0, &PR.ev[i]));
+            th[i] = ABT_THREAD_NULL;
+            ABT_OK(ABT_thread_create(PR.P, pr_unit, (void *)(long)i, ABT_THREAD_ATTR_NULL, plan_bool() ? &th[i] : NULL));
+        }
+        PR.join_issued = 1;
+        ABT_OK(ABT_xstream_join(xs));
+        for (int i = 0; i < PR.n; i++)
+            SIM_CHECK(PR.done[i], "join:returned-before-units-finished", "round %d: ABT_xstream_join returned while unit %d of the stream's only pool has not finished (%s)", r, i,
+                      PR.blocks[i] ? "it was blocked on an eventual" : "it only yields");
+        ABT_xstream_state st;
+        ABT_OK(ABT_xstream_get_state(xs, &st));
+        SIM_CHECK(st == ABT_XSTREAM_STATE_TERMINATED, "stream:not-terminated", "state %d after join", (int)st);
+        size_t tot = 99;
+        ABT_OK(ABT_pool_get_total_size(PR.P, &tot));
+        SIM_CHECK(tot == 0, "pool:total-size", "round %d: ABT_pool_get_total_size = %zu after the join", r, tot);
+        for (int i = 0; i < PR.n; i++)
+            if (th[i] != ABT_THREAD_NULL)
+                ABT_OK(ABT_thread_free(&th[i]));
+        ABT_OK(ABT_xstream_free(&xs));
+        while (!PR.round_over)
+            ABT_OK(ABT_thread_yield());
+        for (int i = 0; i < PR.n; i++)
+            if (PR.blocks[i])
+                ABT_OK(ABT_eventual_free(&PR.ev[i]));
+        sim_progress();
+    }
+    PR.stop = 1;
+    sim_thread_join(tid);
+    ABT_OK(ABT_pool_free(&PR.P));
+    ABT_OK(ABT_finalize());
+    sim_ledger_check_empty("after ABT_finalize");
+    sim_count("c06.pool_reuse_units_released_after_join", (uint64_t)PR.released);
+}
+static void run_c06_pool_reuse(void)
+{
+    run_pool_reuse();
+}
+static void run_c01_pool_reuse(void)
+{
+    run_pool_reuse();
+}
+SIM_WORKLOAD("C06", "pool-reuse", run_c06_pool_reuse, 3)
+SIM_WORKLOAD("C01", "pool-reuse", run_c01_pool_reuse, 2)
